@@ -51,6 +51,8 @@ SLOW = {
     "psi4_mn_cc_pvqz_pure.molden", "psi4_cuh_cc_pvqz_pure.molden", "psi4_zn_cc_pvqz_pure.molden",
     "orca_cuh_cc_pvqz_pure.molden", "orca_zn_cc_pvqz_pure.molden", "nh3_psi4_1.3.2_aug_cc_pvqz_cart.molden",
 }
+# corpus files that are meant to be read with an explicitly given format
+ALT_FORMATS = {"water_extended_trajectory.xyz": "extxyz", "al_fcc.xyz": "extxyz"}
 MISNAMES = ["x.xyz", "x.fchk", "x.molden", "x.wfn", "x.wfx", "x.mkl", "x.pdb", "x.mol2", "x.sdf", "x.gro", "x.cube",
             "x.log", "x.out", "x.cp2k.out", "x.qchemlog", "x.dat", "x.com", "x.crd", "x.mwfn", "x.extxyz",
             "POSCAR_x", "CHGCAR_x", "LOCPOT_x", "x.FCIDUMP", "x.unknownext", "noext"]
@@ -181,7 +183,8 @@ def run_load(name, fmt, api, data, consume=("exhaust", 0), knobs=None, budget=No
     del _SPY[:]
     rec = {"exc": None, "frames": [], "finished": None, "warnings": []}
     with seams.Installed(disk), warnings.catch_warnings(record=True) as wlist, Steps(budget, cover=cover) as st:
-        warnings.simplefilter("always")
+        # environment knob: the caller runs with warnings promoted to errors (python -W error)
+        warnings.simplefilter("error" if knobs.get("warnings") == "error" else "always")
         try:
             if api == "load_one":
                 rec["frames"] = [iodata.load_one(name, fmt=fmt)]
@@ -208,6 +211,7 @@ def run_load(name, fmt, api, data, consume=("exhaust", 0), knobs=None, budget=No
     rec["nlines"] = sum(h.nlines for h in hs)
     rec["neof"] = sum(h.neof + h.nerr for h in hs)
     rec["nopen"] = len(hs)
+    rec["nread"] = sum(h.nread for h in hs)
     lit = _SPY[-1] if _SPY else None
     rec["lit"] = None
     if lit is not None and hasattr(lit, "lineno") and hasattr(lit, "stack"):
@@ -319,6 +323,9 @@ def judge(trace, rec):
             seen = rec["nlines"] + rec["neof"]
             if ln is not None and not (0 <= ln <= seen):
                 out.append(_v("lineno_out_of_range", f"LoadError lineno {ln} but only {seen} lines were pulled from the file", trace))
+            elif ln is not None and ln > 0 and rec.get("nread", 0) > 0 and rec["nlines"] > 0:
+                # line-wise parsing followed by a bulk read() of the rest: the reported line cannot be the last one read
+                out.append(_v("lineno_ignores_bulk_read", f"LoadError reports line {ln} but the rest of the file was consumed by a bulk read() after {rec['nlines']} lines", trace))
             elif ln is not None and rec["lit"] is not None and rec["nopen"] == 1 and ln != rec["lit"][0]:
                 # every LoadError in iodata takes its line number from the LineIterator: it must be the
                 # iterator's position when the error was raised (nothing is read afterwards)
@@ -355,7 +362,7 @@ def judge(trace, rec):
 
 
 def budget_for(src, name, fmt, api, data0):
-    key = ("budget", common.jdump(src), api)
+    key = ("budget", common.jdump(src), api, fmt)
     if key not in _BASE:
         rec = run_load(name, fmt, api, data0)
         _BASE[key] = rec["steps"]
@@ -369,7 +376,7 @@ def _baseline_task(task):
     for api in task["apis"]:
         rec = run_load(task["file"], task["fmt"], api, data0)
         out[api] = rec["steps"]
-    return {"file": task["file"], "steps": out}
+    return {"file": task["file"], "fmt": task["fmt"], "steps": out}
 
 
 def execute(trace):
@@ -399,6 +406,10 @@ def corpus_sources(tier):
         apis = [a for a in ("load_one", "load_many") if hasattr(FORMAT_MODULES[mod], a)]
         fmt = "json_qcschema" if name.endswith(".json") else None
         out.append({"file": name, "mod": mod, "fmt": fmt, "apis": apis, "size": size})
+        if name in ALT_FORMATS:
+            amod = ALT_FORMATS[name]
+            out.append({"file": name, "mod": amod, "fmt": amod, "size": size,
+                        "apis": [a for a in ("load_one", "load_many") if hasattr(FORMAT_MODULES[amod], a)]})
     return out
 
 
@@ -423,7 +434,7 @@ def plan(tier, seed, args):
     for res in pool.run_tasks(_baseline_task, [{"file": s["file"], "fmt": s["fmt"], "apis": s["apis"]} for s in srcs],
                               setup=setup_worker, workers=args.workers, batch=1, timeout=600):
         for api, steps in res["steps"].items():
-            _BASE[("budget", common.jdump({"kind": "corpus", "file": res["file"]}), api)] = steps
+            _BASE[("budget", common.jdump({"kind": "corpus", "file": res["file"]}), api, res["fmt"])] = steps
     if args.only == "seeded":
         srcs_enum = []
     else:
@@ -511,7 +522,8 @@ def gen_trace(rng, tier):
              "base_fmt": base_fmt,
              "consume": [rng.choice(["exhaust", "list", "close", "drop"]), rng.randint(0, 3)],
              "knobs": {"chunk_size": rng.choice([None, None, 16, 512]),
-                       "encoding": rng.choice(["utf-8"] * 6 + ["ascii", "latin-1"])}}
+                       "encoding": rng.choice(["utf-8"] * 6 + ["ascii", "latin-1"]),
+                       "warnings": "error" if rng.random() < 0.12 else "always"}}
     if fmt is not None and not selectable(name, api, fmt):
         trace["api"] = api  # kept: FileFormatError expected
     return trace
